@@ -48,7 +48,8 @@ def _history(rows, n):
         if r[0] == "S":
             hist.append({"session": r[1], "route": r[2]})
         elif r[0] in ("R", "K"):
-            hist.append({"request": r[1], "observed": r[2], "class": r[4], "query": r[5]})
+            hist.append({"request": r[1], "observed": r[2], "class": r[4], "query": r[5],
+                         "transport": r[6] if len(r) > 6 else "direct"})
     return hist
 
 
@@ -76,7 +77,11 @@ def run(ctx):
         "goroutines are modelled as interleavings of the reads/writes of gqlparser's rule-list variable; the Go memory model is not modelled - data-race freedom is observed with the race detector (thorough tier), never proved",
         "hashicorp/golang-lru behaves like the recency-list model of Model/Apq.lean (validated by the cache get/add events of every case)",
     ]
-    ok_extract = ctx.extract("PipelineSteps")
+    ctx.assumptions.append(
+        "transports: every function of graphql/handler/transport that calls CreateOperationContext is driven (POST, GET, multipart form, urlencoded form, application/graphql, multipart/mixed, SSE in-process with a ResponseRecorder; websocket over a real loopback connection, one connection per operation, both sub-protocols); what the client received is read back as the list of answers, the closing frame of a stream as the handler's nil")
+    ok_steps = ctx.extract("PipelineSteps")
+    ok_gates = ctx.extract("TransportGates")
+    ok_extract = ok_steps and ok_gates
     proved = ok_extract and ctx.prove(props=["GqlgenVerif.Props.C03"])
     if ok_extract and not proved:
         ctx.cov["proof_failure"] = ctx.proof_failure
@@ -113,7 +118,8 @@ def run(ctx):
             tag += "+cache-hit"
         branch[tag] += 1
         classes[r[4]] += 1
-        routes[route] += 1
+        via = r[6] if len(r) > 6 else route
+        routes[via] += 1
         if gk != "ok" or "cache-hit" in tag or "blk" in m or "cX" in m:
             nontriv.add((rows[cur_session][1], r[1]))
         if cur_session in dead_sessions:
@@ -132,9 +138,10 @@ def run(ctx):
         verdict = r[3] if r[3] != "-" else spec
         rep = {"kind": "correspondence", "history": _history(rows, n), "request": r[1], "query": r[5],
                "implementation": r[2], "model": " ".join(m.split(" ")[:3]), "spec_verdict": verdict,
+               "transport": r[6] if len(r) > 6 else srow[2],
                "shape": {"verdict": verdict.split(":")[-1], "class": r[4]},
-               "replay": "session `%s` (%s): after the listed history, request `%s` on query %s -> implementation answered `%s`; model `%s`; Spec: %s"
-                         % (srow[1], srow[2], r[1], r[5], r[2][:400], " ".join(m.split(" ")[:3])[:400], verdict)}
+               "replay": "session `%s` (%s): after the listed history, request `%s` on query %s sent through transport `%s` -> implementation answered `%s`; model `%s`; Spec: %s"
+                         % (srow[1], srow[2], r[1], r[5], r[6] if len(r) > 6 else srow[2], r[2][:400], " ".join(m.split(" ")[:3])[:400], verdict)}
         ctx.violation(rep, no_failing_input=not failing)
 
     # ------------------------------------------------------------ concurrent requests, judged by the Spec
@@ -190,12 +197,16 @@ def run(ctx):
         ctx.violation({"kind": "concurrent-first-requests", "counts": wkv, "observed": what,
                        "shape": {"kind": "validate-without-field-rule" if int(wkv["accepted_tries"]) else "rule-list-torn",
                                  "config": "disableSuggestion", "concurrent": True},
-                       "replay": "h_c03 -mode window -tries %s -workers 8 (fresh rule list, SetDisableSuggestion(true), 8 goroutines send their first request at once): %s"
+                       "replay": "h_c03 -mode window -tries %s -workers 8 (per try: fresh rule list, then 8 goroutines send their first requests at once; tries cycle through the process configurations {one executor with SetDisableSuggestion(true) | executor A with it gets `{ name }`, executor B with suggestions on gets `{ nope_unknown_field }` 12 times per goroutine | two executors with it}): %s"
                                  % (tries, "; ".join(what))})
 
     if not proved and ok_extract:
         if not any(not nf for _, nf in ctx.violations):
             ctx.violation({"kind": "proof", "failing": ctx.proof_failure}, no_failing_input=True)
+
+    # violations that carry a concrete failing input are listed first (a refused extraction / a broken
+    # proof names the place, the failing input shows the behaviour)
+    ctx.violations.sort(key=lambda v: v[1])
 
     reqs = [r for r in rows if r[0] == "R"]
     ctx.cov.update({
@@ -207,7 +218,7 @@ def run(ctx):
         "window_tries": wkv,
         "race_detector_reports": len(race_reports),
         "distinct_nontrivial": len(nontriv),
-        "rule": "sessions = (cache in none/map/lru1/lru2/lru3/lru1000) x disableSuggestion x random list of 0-11 extensions each implementing a random non-empty subset of the 6 hook interfaces x route (executor driven like a transport / handler.Server+POST); per session 3-12 requests over a pool of 2-5 texts (valid: anonymous, named, multi-operation, variables, subscription; 16 invalidation classes) with operation names (right/empty/unknown), variables (valid/missing/wrong type/null/extra), mutator rejections, query rewrites, blocking operation interceptors, Exec set-up errors, 0-3 subscription events, 1-5 polls; plus 21 directed sessions. Non-trivial = distinct (session, request) that is rejected by some gate, hits the cache, is blocked or fails in Exec",
+        "rule": "sessions = (cache in none/map/lru1/lru2/lru3/lru1000) x disableSuggestion x random list of 0-11 extensions each implementing a random non-empty subset of the 6 hook interfaces (extension ids divisible by 3 register their rejection codes as protocol-kind errors, the others stay user-kind) x route (executor driven like a transport / handler.Server with all transports, per request one of post, get, multipart form, urlencoded form, application/graphql, SSE, multipart/mixed, websocket graphql-ws, websocket graphql-transport-ws); per session 3-12 requests over a pool of 2-5 texts (valid: anonymous, named, multi-operation, variables, subscription; 16 invalidation classes) with operation names (right/empty/unknown), variables (valid/missing/wrong type/null/extra), mutator rejections, query rewrites, blocking operation interceptors, Exec set-up errors, 0-3 subscription events, 1-5 polls; plus 21 directed sessions and 18 directed transport sessions (every transport x {none, lru2} x 24 requests: each kind of rejection incl. protocol-kind and user-kind mutator rejections of queries, mutations and subscriptions). Non-trivial = distinct (session, request) that is rejected by some gate, hits the cache, is blocked or fails in Exec",
         "input_distribution": dict(branch),
         "generator_classes": dict(classes),
         "routes": dict(routes),
